@@ -4,17 +4,17 @@ from ht_c01 import P
 from ht_c02 import P2
 
 
-def views(via, tr, b, elem, capv=2, tier="quick"):
-    name = "c12_views_%s__%s_%s_%s__c%d" % (via.lower(), tr, b, elem, capv)
-    call = "c12::views_h::<%s, %s, %s>(%s, c12::SpareVia::%s)" % (TR[tr], bk(b, elem, capv), elem, P(capv, "s%d" % capv, 0), via)
-    H(name, call, ["C12"], tier=tier, unwind=unwind_for(elem, capv + 2, False), dims=dict(cap=capv, spare_write=via, elem=elem, align=ELEMS[elem][1], backend=b, traits=tr, placement="symbolic offset in a 64-aligned arena", shape_symbolic=True),
+def views(via, tr, b, elem, capv=2, tier="quick", off=0):
+    name = "c12_views_%s__%s_%s_%s__c%d_o%d" % (via.lower(), tr, b, elem, capv, off)
+    call = "c12::views_h::<%s, %s, %s>(%s, c12::SpareVia::%s)" % (TR[tr], bk(b, elem, capv), elem, P(capv, "s%d" % capv, 0, 0, 0, off), via)
+    H(name, call, ["C12"], tier=tier, unwind=unwind_for(elem, capv + 2, False), dims=dict(cap=capv, spare_write=via, elem=elem, align=ELEMS[elem][1], backend=b, traits=tr, placement="offset %d x align_of(vector) in a 64-aligned arena" % off, shape_symbolic=True),
       role="c12_views_%s_%s" % (b, "hi" if ELEMS[elem][1] > 8 else "lo"))
 
 
-def aligned_use(tr, b, elem, capv=2, tier="quick"):
-    name = "c12_aligneduse__%s_%s_%s__c%d" % (tr, b, elem, capv)
-    call = "c12::aligned_use_h::<%s, %s, %s>(%s)" % (TR[tr], bk(b, elem, capv), elem, P(capv, "s%d" % (capv - 1), 0))
-    H(name, call, ["C12"], tier=tier, unwind=unwind_for(elem, capv + 2, False), dims=dict(cap=capv, elem=elem, align=ELEMS[elem][1], backend=b, traits=tr, placement="symbolic offset in a 64-aligned arena", shape_symbolic=True),
+def aligned_use(tr, b, elem, capv=2, tier="quick", off=0):
+    name = "c12_aligneduse__%s_%s_%s__c%d_o%d" % (tr, b, elem, capv, off)
+    call = "c12::aligned_use_h::<%s, %s, %s>(%s)" % (TR[tr], bk(b, elem, capv), elem, P(capv, "s%d" % (capv - 1), 0, 0, 0, off))
+    H(name, call, ["C12"], tier=tier, unwind=unwind_for(elem, capv + 2, False), dims=dict(cap=capv, elem=elem, align=ELEMS[elem][1], backend=b, traits=tr, placement="offset %d x align_of(vector) in a 64-aligned arena" % off, shape_symbolic=True),
       role="c12_aligneduse_%s_%s" % (b, "hi" if ELEMS[elem][1] > 8 else "lo"))
 
 
@@ -43,24 +43,25 @@ ITS = ["Iter", "IterMut", "Drain", "Splice", "TIter", "TIterMut", "TDrain", "TSp
 
 
 def define():
-    # C12 quick: every backend, alignments 1..64, sizes 1/3, ZST
+    # C12 quick: every backend, alignments 1..64, sizes 1/3, ZST; inline (stack) storage at several placements
     views("None", "none", "heap", "B3D")
     views("TypedSpare", "none", "heap", "W8D")
     views("ByteSpare", "none", "heap", "B1")
-    views("ByteSpare", "none", "stack", "W8")
-    views("TypedSpare", "none", "stack", "B3D")
-    views("None", "none", "stackn", "H2")
     views("ByteSpare", "none", "reloc", "T12")
     views("None", "none", "heap", "Q16", capv=0)
     views("TypedSpare", "none", "heap", "A64")
     views("None", "none", "heap", "Z0D")
-    views("None", "none", "stack", "Q16")
-    views("None", "none", "stack", "A32", tier="rot2")
-    views("None", "none", "stackn", "A64", tier="rot2")
-    aligned_use("none", "stack", "A64")
-    aligned_use("none", "stack", "W8D")
+    for off in (0, 1, 3):
+        views("ByteSpare", "none", "stack", "W8", off=off, tier="quick" if off != 3 else "rot2")
+        views("TypedSpare", "none", "stack", "B3D", off=off, tier="quick" if off == 1 else "rot2")
+        views("None", "none", "stackn", "H2", off=off, tier="quick" if off == 0 else "rot2")
+        views("None", "none", "stack", "Q16", off=off, tier="quick" if off != 3 else "rot2")
+        views("None", "none", "stack", "A32", off=off, tier="rot2")
+        views("None", "none", "stackn", "A64", off=off, tier="rot2")
+        aligned_use("none", "stack", "A64", off=off, tier="quick" if off == 1 else "rot2")
+        aligned_use("none", "stack", "W8D", off=off, tier="quick" if off == 1 else "rot2")
+        aligned_use("none", "stackn", "Q16", off=off, tier="rot2")
     aligned_use("none", "heap", "A32")
-    aligned_use("none", "stackn", "Q16", tier="rot2")
     # C13 quick
     for i, a in enumerate(ACCS):
         handle(a, "none", "heap" if i % 2 == 0 else "stack", "B3D" if i % 3 else "W8D")
@@ -81,9 +82,11 @@ def define():
             for via in ("None", "TypedSpare", "ByteSpare"):
                 if ELEMS[elem][0] == 0 and via != "None":
                     continue
-                views(via, "none", b, elem, capv=2, tier="thorough")
-            if b != "reloc":
-                aligned_use("none", b, elem, tier="thorough") if ELEMS[elem][0] else None
+                for off in ((0, 1, 2, 3) if b in ("stack", "stackn") else (0,)):
+                    views(via, "none", b, elem, capv=2, tier="thorough", off=off)
+            if b != "reloc" and ELEMS[elem][0]:
+                for off in ((0, 1, 2, 3) if b in ("stack", "stackn") else (0,)):
+                    aligned_use("none", b, elem, tier="thorough", off=off)
     for a in ACCS:
         for elem in ("B1", "H2", "B3D", "W8D", "T12"):
             for b in ("heap", "stack"):
